@@ -6,5 +6,10 @@ print("| seed | breaks | change | needs | checks run (quick tier) → result |")
 print("|---|---|---|---|---|")
 for d in sorted(glob.glob(os.path.join(V, "seeded", "S*"))):
     m = json.load(open(os.path.join(d, "meta.json")))
-    runs = "; ".join("%s: %s" % (r["cmd"].split("./check ")[1].split()[0], {0: "not noticed (exit 0)", 1: "**VIOLATION** (%d replay(s))" % r["violation_lines"], 2: "inconclusive (exit 2)"}.get(r["exit"], str(r["exit"]))) for r in m["checks_run"])
+    def word(r):
+        w = {0: "not noticed (exit 0)", 1: "**VIOLATION** (%d replay(s))" % r["violation_lines"], 2: "inconclusive (exit 2)"}.get(r["exit"], str(r["exit"]))
+        if "exit_at_delivery" in r:
+            w = {0: "not noticed", 1: "VIOLATION", 2: "inconclusive"}.get(r["exit_at_delivery"], "?") + " at delivery, after strengthening " + w
+        return w
+    runs = "; ".join("%s: %s" % (r["cmd"].split("./check ")[1].split()[0], word(r)) for r in m["checks_run"])
     print("| %s | %s | %s | %s | %s |" % (os.path.basename(d), m["breaks_property"], m["change"], m["needs_to_manifest"], runs))
